@@ -22,8 +22,9 @@
 (*              write must not exit 0.  Harness action, not in the MC       *)
 (*              alphabet.                                                   *)
 (*   Damage     ENVIRONMENT: one chunk file of the FIRST scale of d is        *)
-(*              removed or truncated (m = "remove" | "truncate"): the scale *)
-(*              is no longer completely readable.  Likewise a Convert with  *)
+(*              removed, truncated or moved aside (m = "remove" |           *)
+(*              "truncate" | "hide"): the scale is no longer completely     *)
+(*              readable; Restore puts a hidden file back.  Likewise a Convert with  *)
 (*              m = "srcfault" meets a source whose server fails the first  *)
 (*              chunk request once.  A conversion that cannot read a source *)
 (*              chunk must not exit 0.  Harness actions, not in the MC      *)
@@ -184,6 +185,11 @@ RunCompute(c, D) ==
   LET ds == D[c.d] IN
   IF ds.info.n = 0 THEN Res(D, 1)
   ELSE IF ds.info.n = 1 THEN Res(D, 0)
+  ELSE IF ds.chunks[1] # "absent" /\ 1 \in ds.mis /\ 2 \notin ds.blocked
+    \* the full resolution is stored but one chunk cannot be read: the chunks of the second
+    \* scale that do not need it are written, then the run fails
+    THEN Res([D EXCEPT ![c.d].chunks[2] = Down(Resolve(c.m, ds.info.type), ds.chunks[1]),
+                       ![c.d].mis = @ \cup {2}], 1)
   ELSE IF ~Readable(ds, 1) THEN Res(D, 1)
   ELSE IF ds.blocked \cap (2..ds.info.n) # {}   \* the scales before the first blocked one are computed
     THEN LET k == CHOOSE i \in ds.blocked \cap (2..ds.info.n) :
@@ -259,6 +265,8 @@ Run(c, D, cf) ==
     [] c.op = "Obstruct"  -> RunObstruct(c, D)
     [] c.op = "Damage"    -> IF D[c.d].info.n = 0 \/ D[c.d].chunks[1] = "absent" THEN Res(D, 1)
                              ELSE Res([D EXCEPT ![c.d].mis = @ \cup {1}], 0)
+    [] c.op = "Restore"   -> IF 1 \notin D[c.d].mis THEN Res(D, 1)
+                             ELSE Res([D EXCEPT ![c.d].mis = @ \ {1}], 0)
     [] c.op = "Rechunk"   -> IF D[c.d].info.n = 0 \/ D[c.d].info.sh # "nosh" THEN Res(D, 1) ELSE Res(D, 0)
 
 Succ(e) == e = 0
@@ -339,6 +347,7 @@ Complete(c, D) ==
     [] c.op = "HandInfo"  -> ds.fullres # "absent"
     [] c.op = "Obstruct"  -> TRUE
     [] c.op = "Damage"    -> TRUE
+    [] c.op = "Restore"   -> TRUE
     [] c.op = "Rechunk"   -> ds.info.n # 0
 
 SuccessMeansComplete ==
